@@ -75,11 +75,15 @@ VF_SUB(powm_variants, 6000, 120000) {
   mpz_t *tab = new mpz_t[TMCG_MAX_FPOWM_T];
   tmcg_mpz_fpowm_init(tab);
   size_t xb = mpz_sizeinbase(x.get_mpz_t(), 2);
-  size_t t = ctx.c.coin() ? TMCG_MAX_FPOWM_T : xb; // the library itself precomputes |q| or |p| entries
+  size_t t = ctx.c.coin() ? TMCG_MAX_FPOWM_T : std::min<size_t>(xb, TMCG_MAX_FPOWM_T); // the library itself precomputes |q| or |p| entries
   tmcg_mpz_fpowm_precompute(tab, m.get_mpz_t(), p.get_mpz_t(), t);
-  try { r = -7; tmcg_mpz_fpowm(tab, r.get_mpz_t(), m.get_mpz_t(), x.get_mpz_t(), p.get_mpz_t()); cmp("fpowm"); }
+  // an exponent longer than the table (TMCG_MAX_FPOWM_T bits) is documented to be refused with invalid_argument (e.g. a multiple of a 2047-bit prime modulus)
+  bool over = xb > TMCG_MAX_FPOWM_T; if (over) ctx.label("exp:beyond-table-limit");
+  try { r = -7; tmcg_mpz_fpowm(tab, r.get_mpz_t(), m.get_mpz_t(), x.get_mpz_t(), p.get_mpz_t()); if (over) ctx.fail("powm/fpowm/exponent-beyond-table-accepted", ctx.desc.str()); else cmp("fpowm"); }
+  catch (std::invalid_argument &e) { if (!over) ctx.fail("powm/fpowm/throws", std::string(e.what()) + " for " + ctx.desc.str()); }
   catch (std::exception &e) { ctx.fail("powm/fpowm/throws", std::string(e.what()) + " for " + ctx.desc.str()); }
-  try { r = -7; tmcg_mpz_fspowm(tab, r.get_mpz_t(), m.get_mpz_t(), x.get_mpz_t(), p.get_mpz_t()); cmp("fspowm"); }
+  try { r = -7; tmcg_mpz_fspowm(tab, r.get_mpz_t(), m.get_mpz_t(), x.get_mpz_t(), p.get_mpz_t()); if (over) ctx.fail("powm/fspowm/exponent-beyond-table-accepted", ctx.desc.str()); else cmp("fspowm"); }
+  catch (std::invalid_argument &e) { if (!over) ctx.fail("powm/fspowm/throws", std::string(e.what()) + " for " + ctx.desc.str()); }
   catch (std::exception &e) { ctx.fail("powm/fspowm/throws", std::string(e.what()) + " for " + ctx.desc.str()); }
   if (x >= 0 && x.fits_ulong_p()) {
     try { r = -7; tmcg_mpz_fpowm_ui(tab, r.get_mpz_t(), m.get_mpz_t(), x.get_ui(), p.get_mpz_t()); cmp("fpowm_ui"); }
